@@ -214,7 +214,7 @@ def _plant(events):
     for e in events:
         if e["ev"] == "NormalizeLen" and not e["o"]["ok"]:
             bad = json.loads(json.dumps(e))
-            bad["o"] = {"ok": True, "err": ""}
+            bad["o"] = {"ok": True, "err": "", "owned": False}
             bad["case"], bad["i"] = "selftest-length", 10 ** 8 + 3
             planted.append(("length", bad))
             break
@@ -260,12 +260,17 @@ def run(ctx):
         if stat[k] == 0:
             raise vlib.ToolError("scaled-down model is vacuous for '%s'" % k)
 
+    # TLC's workers print in a run-dependent order: fix the order of the cases
+    lines = sorted(open(cases_path).read().splitlines())
+    with open(cases_path, "w") as fc:
+        fc.write("\n".join(lines) + "\n")
+
     # spec -> impl: generated cases executed on allsorts
     gen_trace = ctx.path("gen_trace.ndjson")
     rep = vlib.run_harness(binp, ["replay", cases_path, gen_trace])
     ctx.note("replay: %s" % json.dumps(rep))
     # impl -> spec: random groups, repository fonts, conversions
-    groups = 400 if ctx.quick else 4500
+    groups = 900 if ctx.quick else 6000
     rec_trace = ctx.path("rec_trace.ndjson")
     rec = vlib.run_harness(binp, ["record", ctx.seed, groups, rec_trace])
     ctx.note("record: %s" % json.dumps(rec))
